@@ -205,6 +205,20 @@ def generate(tier, rng):
         ln = rng.choice([1, 2, 5, 12, 30, 30, 80])
         case = {'hasgfx': 1, 'mem': [lib.hx(r) for r in _mem(rng, rng.choice(kinds))],
                 'ops': [gen_op(rng) for _ in range(ln)]}
+        if i % 8 == 3:
+            # a cart LOADED from a .p8 file saved the PICO-8 way (default tails and empty sections left out): some
+            # regions are the empty default, the others end in it
+            from props import shortp8
+            case['build'] = 'p8'
+            mem = []
+            for sec in ('gfx', 'map', 'gff', 'music', 'sfx'):
+                r = rng.random()
+                if r < 0.4:
+                    mem.append(shortp8.default_region(sec))
+                else:
+                    rows = rng.randrange(1, shortp8.ROWS[sec] + 1)
+                    mem.append(shortp8.region_with_default_tail(rng, sec, rows))
+            case['mem'] = [lib.hx(m) for m in mem]
         if i % 8 == 7:
             # a cart assembled through the public constructors from caller buffers (shared where equal)
             case['build'] = 'buffers'
@@ -241,6 +255,11 @@ def generate(tier, rng):
 def corpus_cases():
     z = [lib.hx(bytes(n)) for n in SIZES]
     yield {'hasgfx': 1, 'mem': z, 'build': 'buffers', 'ops': ['fs,3,255', 'mugc,0,3', 'musc,1,2,5', 'fg,6,255']}
+    # a cart loaded from a .p8 that has a __gfx__ section and no __map__ section: the lower map rows live in its sprite sheet
+    from props import shortp8 as _sp
+    zz = [lib.hx(bytes([1]) + bytes(8191)), lib.hx(_sp.default_region('map')), lib.hx(_sp.default_region('gff')),
+          lib.hx(_sp.default_region('music')), lib.hx(_sp.default_region('sfx'))]
+    yield {'hasgfx': 1, 'mem': zz, 'build': 'p8', 'ops': ['msc,3,40,171', 'mgc,3,40', 'gs,176,1,1', 'ss,200,0,0,0102/0304', 'mgr,0,50,4,2']}
     # minimised pre-fix defects (kept as regression corpus)
     yield {'hasgfx': 1, 'mem': z, 'ops': ['ss,15,0,0,0102030405060708090a']}            # column 128 wrapped
     yield {'hasgfx': 1, 'mem': z, 'ops': ['ss,240,0,8,01/02']}                          # row 128 IndexError
@@ -333,6 +352,8 @@ def run_impl(case):
     from pico8.game.game import Game
     if case.get('build') == 'buffers':
         g, secs, _ = lib.game_from_buffers(case['mem'])
+    elif case.get('build') == 'p8':
+        g, secs = lib.game_from_p8(case['mem'])      # (a cart that loads to other bytes shows in the memory compared below)
     else:
         g = Game.make_empty_game()
         secs = [g.gfx, g.map, g.gff, g.music, g.sfx]
